@@ -97,6 +97,14 @@ def run(R):
         emp = [t for t in g.nodes if t.kind == 'test' and norm(t.ast) in ("%s == b''" % cv, 'not %s' % cv)]
         brk = [n for t in emp for n in guard_region(g, t, 'true') if n.kind == 'stmt' and isinstance(n.ast, ast.Break)]
         c.check(bool(brk), cp, emp[0].ast if emp else None, 'an empty read from the child ends interact', kind='path', tag='empty-break')
+        # the end-of-stream test looks at what was READ, not at what a filter made of it
+        for t in emp:
+            mods = [m for m in g.nodes if m.kind == 'stmt' and cv in assigned_names(m.ast) and m not in crd
+                    and crd and g.path(crd[0], m, skip_labels=('exc',), include_start=False) is not None
+                    and g.path(m, t, avoid=set(crd), skip_labels=('exc',)) is not None]
+            c.check(not mods, cp, t.ast, 'the empty-read (end of stream) test is applied to the raw read, before any filter: a filter that returns b"" '
+                    '(e.g. one hiding a password) must not end interact()', witness='%s is reassigned at L%d before the test' % (cv, mods[0].lineno) if mods else None,
+                    tag='eof-on-raw-read')
 
 
 def check_copy(c, cp, wr):
@@ -229,6 +237,7 @@ MUTANTS = [
     ('writen-once', 'pty_spawn', "        while data != b'' and self.isalive():\n            n = os.write(fd, data)\n            data = data[n:]", "        if data != b'' and self.isalive():\n            n = os.write(fd, data)", 'D3'),
     ('stdout-wrong-fd', 'pty_spawn', "                os.write(self.STDOUT_FILENO, data)", "                os.write(self.STDERR_FILENO, data)", 'D3'),
     ('child-chunk-dropped', 'pty_spawn', "                if output_filter:\n                    data = output_filter(data)", "                if output_filter:\n                    data = output_filter(data)\n                if len(data) == 1000:\n                    continue", 'D3'),
+    ('filter-before-eof-test', 'pty_spawn', "                if data == b'':\n                    # BSD-style EOF\n                    break\n                if output_filter:\n                    data = output_filter(data)", "                if output_filter:\n                    data = output_filter(data)\n                if data == b'':\n                    # BSD-style EOF\n                    break", 'D6'),
     ('eio-raises', 'pty_spawn', "                    if err.args[0] == errno.EIO:\n                        # Linux-style EOF\n                        break\n                    raise\n                if data == b'':", "                    raise\n                if data == b'':", 'D6'),
     ('stdin-strip', 'pty_spawn', "                if input_filter:\n                    data = input_filter(data)\n                i = -1", "                if input_filter:\n                    data = input_filter(data)\n                data = data.replace(b'\\r\\n', b'\\n')\n                i = -1", 'D3'),
 ]
